@@ -320,6 +320,14 @@ def _fd_denominator(c, fd):
             full = isinstance(it, ast.Call) and U(it.func) == "range" and len(it.args) == 1 and not it.keywords \
                 and U(it.args[0]) in ("self.n_parameters", f"{tparam}.size", f"len({tparam})", f"{tparam}.shape[0]")
             full = full or (isinstance(it, ast.Call) and U(it.func) == "enumerate" and len(it.args) == 1 and U(it.args[0]) == tparam)
+            # the size of the gradient array itself, when that array has one cell per coordinate: G = zeros(<number of coordinates>)
+            if not full and isinstance(it, ast.Call) and U(it.func) == "range" and len(it.args) == 1 and not it.keywords:
+                m_ = pmatch(it.args[0], "_G.size") or pmatch(it.args[0], "len(_G)") or pmatch(it.args[0], "_G.shape[0]")
+                if m_ is not None:
+                    gdefs = [n_ for n_ in ast.walk(fd) if isinstance(n_, ast.Assign) and len(n_.targets) == 1 and U(n_.targets[0]) == m_["_G"]]
+                    full = len(gdefs) == 1 and any(pmatch(gdefs[0].value, pt_) is not None for pt_ in (
+                        "zeros(self.n_parameters)", f"zeros({tparam}.size)", f"zeros(len({tparam}))", f"zeros_like({tparam})", f"zeros({tparam}.shape)",
+                        "zeros(self.n_parameters, **_)", f"zeros({tparam}.size, **_)", f"zeros_like({tparam}, **_)", "empty(self.n_parameters)"))
             if not full:
                 problems.append(f"the coordinate loop runs over `{U(it)}`, not over every index of `{tparam}`: the coordinates left out keep a "
                                 f"zero in the estimated gradient")
